@@ -94,6 +94,16 @@ func (eng *Engine) callResolved(fn, callee *ssa.Function, bind []AV, in ssa.Call
 	if callee.Synthetic != "" && len(callee.Blocks) > 0 && !eng.p.InModule(callee) && eng.p.inModuleLoose(callee) && !eng.rec[callee] {
 		return eng.inline(callee, in, args, bind, env)
 	}
+	if callee.Synthetic != "" && len(callee.Blocks) > 0 && !eng.p.InModule(callee) && eng.p.inModuleLoose(callee) && eng.rec[callee] {
+		// a bound-method wrapper / method-expression thunk on a recursive cycle (parser combinators handed
+		// t.parseAnd): the call is the call of the method it forwards to, with the bound receiver first
+		if inner := unwrapThunk(eng.p, callee); inner != nil && inner != callee && eng.p.InModule(inner) {
+			full := append(append([]AV{}, bind...), args...)
+			if len(full) == len(inner.Params) {
+				return eng.callResolved(fn, inner, nil, in, full, env)
+			}
+		}
+	}
 	if !eng.p.InModule(callee) {
 		return eng.execStd(callee, in, args, env)
 	}
